@@ -547,6 +547,7 @@ pub fn run_in_workers(kind: &str, cases: &[String], limit_s: u64) -> Vec<WorkerO
     let results: Vec<Mutex<Option<WorkerOutcome>>> = (0..n).map(|_| Mutex::new(None)).collect();
     let next = AtomicUsize::new(0);
     let nworkers = threads().min(n.max(1));
+    let confirmed_timeouts = AtomicUsize::new(0);
     std::thread::scope(|s| {
         for _ in 0..nworkers {
             s.spawn(|| {
@@ -558,9 +559,13 @@ pub fn run_in_workers(kind: &str, cases: &[String], limit_s: u64) -> Vec<WorkerO
                     }
                     let mut out =
                         run_one(&mut child, kind, &cases[i], Duration::from_secs(limit_s));
-                    if out == WorkerOutcome::Timeout {
-                        // re-run alone with a long limit before it is reported
+                    if out == WorkerOutcome::Timeout && confirmed_timeouts.load(Ordering::Relaxed) < 4 {
+                        // re-run alone with a long limit before it is reported (only for the first few:
+                        // once hangs are confirmed, later ones are reported after the short limit)
                         out = run_one(&mut child, kind, &cases[i], Duration::from_secs(60));
+                        if out == WorkerOutcome::Timeout {
+                            confirmed_timeouts.fetch_add(1, Ordering::Relaxed);
+                        }
                     }
                     *results[i].lock().unwrap() = Some(out);
                 }
